@@ -301,7 +301,10 @@ def read_only(chk: Check) -> None:
     chk.ob('OWN-frozen', init, ok, 'the constructor copies its argument into a new dict (later changes of the source do not show)', kind='constructor-copies')
     pp = prog.func('ports.PortNamespace.pre_process')
     rets = [r for r in ast.walk(pp.node) if isinstance(r, ast.Return)]
-    ok = len(rets) == 1 and norm(rets[0].value) == f'AttributesFrozendict({pp.params[1]})'
+    rv_ = rets[0].value if len(rets) == 1 else None
+    # (the class named directly or through its module: ``AttributesFrozendict(...)`` / ``utils.AttributesFrozendict(...)``)
+    k_ = prog.resolve_class(pp.module, rv_.func) if isinstance(rv_, ast.Call) else None
+    ok = k_ is not None and k_.qualname == 'utils.AttributesFrozendict' and [norm(a) for a in rv_.args] == [pp.params[1]] and not rv_.keywords
     chk.ob('OWN-frozen', pp, ok, 'pre_process returns a frozen mapping', kind='returns-frozen')
     cfg = cfg_of(pp)
     ff = chk.ctx.facts.analyse(pp)
